@@ -42,7 +42,8 @@ func init() {
 			"kinds: X.509 / precert / non-fatal parse error / Certificate-shaped unparsable / corrupt bytes), options from BatchSize{1,7,100,1000,other} x ParallelFetch{1,2,8} x " +
 			"NumWorkers{1,2,8} x StartIndex{0,k} x MaximumIndex{0,k} x PrecertOnly x IgnoreParsingErrors x matcher{All,None,SerialNumber,tag%3}, behaviour plan per (range start, attempt): " +
 			"full / non-empty strict prefix / HTTP 502,503,504,429 / malformed JSON (6 kinds) / connection reset, GOMAXPROCS{1,2,4,16}, every configuration run twice; " +
-			"plus a long family (> 2.5 s, incl. HTTP 500) in which the once-per-second progress goroutine runs. non-trivial = Scan returned and the scanned range held >= 1 entry; " +
+			"plus a long family (> 2.5 s, incl. HTTP 500) and a medium family (>= 1.2 s) in which the once-per-second progress goroutine runs, with the caller's treatment of the progress channel " +
+			"as a dimension {drained, nil, unbuffered never read, buffered(1) never read, drained for 1.2 s then abandoned}. non-trivial = Scan returned and the scanned range held >= 1 entry; " +
 			"distinct by hash of the configuration (tree, options, plan, GOMAXPROCS, leg) — the two repetitions of a configuration count once",
 		MinNontrivial:         120,
 		MinNontrivialThorough: 700,
@@ -55,6 +56,7 @@ func init() {
 			"entries whose certificate cannot be parsed are not handed to the matcher (there is no certificate to hand over); per the scanner's comments they are skipped, or with IgnoreParsingErrors delivered to the found callback when they are valid ASN.1",
 			"an entry is identified by the serial number of the certificate handed to the matcher / by the raw bytes handed to the callback",
 			"termination: a Scan that has not returned while the fake log has seen no new request for 600 s (a whole scan normally takes < 5 s), with goroutines parked in ct/scanner frames, is reported as a violation with the goroutine dump",
+			"tight termination rule: once the log has served the whole range, has been idle for 20 s and two goroutine dumps >= 10 s apart show Scan alive with no fetcher/matcher goroutine left, Scan is reported as not returning (witness: the dump)",
 			"race detection is that of the Go race detector on the interleavings that occurred (GOMAXPROCS 1/2/4/16, perturbed callbacks and handlers)",
 			"goroutine ids are read from runtime.Stack; ordering of events across goroutines uses the monotonic clock and is used for evidence (interleaving counts) only",
 		},
@@ -219,7 +221,11 @@ type scanConfig struct {
 	Perturb     int
 	LogLevel    string // panic | debug
 	Long        bool
+	TargetMs    int    // long / medium family: intended duration
+	Updater     string // how the caller treats the progress channel: drained | nil | unbuffered-unread | buffered1-unread | drained-1s-then-abandoned
 }
+
+var updaterModes = []string{"drained", "nil", "unbuffered-unread", "buffered1-unread", "drained-1s-then-abandoned"}
 
 func (cfg scanConfig) String() string {
 	b, _ := json.Marshal(cfg)
@@ -254,6 +260,7 @@ type scanResult struct {
 	reqs     []reqEvent
 	updates  []int64
 	hung     bool
+	hungWhy  string
 	dump     string
 	panicked *core.PanicInfo
 	elapsed  time.Duration
@@ -344,17 +351,35 @@ func runScan(cfg scanConfig, tree *fakeTree) *scanResult {
 	defer runtime.GOMAXPROCS(prev)
 
 	s := scanner.NewScanner(client.New(srv.URL), opts, logger)
-	updater := make(chan int64, 64)
+	// the progress channel as different callers treat it; Scan's contract does not depend on anybody reading it
+	var updater chan int64
+	var readFrom chan int64
+	var abandon <-chan time.Time
+	switch cfg.Updater {
+	case "nil":
+	case "unbuffered-unread":
+		updater = make(chan int64)
+	case "buffered1-unread":
+		updater = make(chan int64, 1)
+	case "drained-1s-then-abandoned":
+		updater = make(chan int64)
+		readFrom = updater
+		abandon = time.After(1200 * time.Millisecond)
+	default:
+		updater = make(chan int64, 64)
+		readFrom = updater
+	}
 	stopDrain := make(chan struct{})
 	drained := make(chan []int64, 1)
 	go func() {
 		var got []int64
 		for {
 			select {
-			case v := <-updater:
+			case v := <-readFrom:
 				got = append(got, v)
+			case <-abandon:
+				readFrom, abandon = nil, nil // the consumer walks away
 			case <-stopDrain:
-				// keep a late tick of the (never stopped) progress goroutine from blocking: the channel is buffered
 				drained <- got
 				return
 			}
@@ -378,6 +403,8 @@ func runScan(cfg scanConfig, tree *fakeTree) *scanResult {
 	tick := time.NewTicker(2 * time.Second)
 	defer tick.Stop()
 	lastN, lastChange := -1, time.Now()
+	var parkedSince, lastDump time.Time
+	wantServed := cfg.stop() - cfg.Start
 wait:
 	for {
 		select {
@@ -387,14 +414,40 @@ wait:
 		case <-tick.C:
 			fl.mu.Lock()
 			n := len(fl.reqs) + fl.sthReqs + fl.other
+			served := fl.served
 			fl.mu.Unlock()
 			if n != lastN {
 				lastN, lastChange = n, time.Now()
+				parkedSince = time.Time{}
+			}
+			// tight rule: the log has handed out the whole range, has been idle for 20 s, and no fetcher or matcher
+			// goroutine exists any more (so every entry was handed over) — then Scan itself must have returned.
+			// Two dumps >= 10 s apart must both show Scan alive without workers.
+			if wantServed > 0 && served >= wantServed && time.Since(lastChange) > 20*time.Second && time.Since(lastDump) > 10*time.Second {
+				buf := make([]byte, 4<<20)
+				dump := string(buf[:runtime.Stack(buf, true)])
+				lastDump = time.Now()
+				scanAlive := strings.Contains(dump, "ct/scanner.(*Scanner).Scan(")
+				workers := strings.Contains(dump, "ct/scanner.(*Scanner).matcherJob(") || strings.Contains(dump, "ct/scanner.(*Scanner).fetcherJob(")
+				switch {
+				case !scanAlive || workers:
+					parkedSince = time.Time{}
+				case parkedSince.IsZero():
+					parkedSince = time.Now()
+				case time.Since(parkedSince) >= 10*time.Second:
+					res.hung = true
+					res.hungWhy = fmt.Sprintf("the log served all %d entries of the range and has seen no request for %d s; all fetcher and matcher goroutines have exited (every entry was handed over) but Scan has not returned (updater mode %q)",
+						wantServed, int(time.Since(lastChange).Seconds()), cfg.Updater)
+					res.dump = dump
+					close(stopDrain)
+					return res
+				}
 			}
 			if time.Since(lastChange) > idleLimit || time.Since(t0) > hardLimit {
 				buf := make([]byte, 4<<20)
 				n := runtime.Stack(buf, true)
 				res.hung = true
+				res.hungWhy = "Scan has not returned and the log has seen no request for 600 s"
 				res.dump = string(buf[:n])
 				close(stopDrain)
 				return res
@@ -610,7 +663,8 @@ func summarize(c *core.Ctx, st *c17stats, cfg scanConfig, res *scanResult) (il, 
 // ---------------------------------------------------------------------------
 // configuration generator
 
-func pickCfg(r *rand.Rand, long bool, race bool) scanConfig {
+func pickCfg(r *rand.Rand, targetMs int, race bool) scanConfig {
+	long := targetMs > 0
 	cfg := scanConfig{TreeSeed: r.Uint64() >> 1, Mix: mixNames[r.IntN(len(mixNames))]}
 	batches := []int64{1, 7, 100, 1000, 3, 64, 250}
 	cfg.Batch = batches[r.IntN(len(batches))]
@@ -670,9 +724,13 @@ func pickCfg(r *rand.Rand, long bool, race bool) scanConfig {
 	cfg.LogLevel = []string{"panic", "debug"}[r.IntN(2)]
 	if long {
 		// > 2.5 s: few fetchers, a fixed handler delay per request, matchers busy while the ticker fires
-		cfg.Long = true
+		cfg.Long = targetMs >= 2500
+		cfg.TargetMs = targetMs
 		cfg.Mix = "dirty"
 		cfg.TreeSize = 400 + r.IntN(400)
+		if !cfg.Long {
+			cfg.TreeSize /= 2
+		}
 		cfg.Batch = int64(10 + r.IntN(16))
 		cfg.Fetchers = 1 + r.IntN(2)
 		cfg.Workers = []int{2, 8}[r.IntN(2)]
@@ -683,7 +741,7 @@ func pickCfg(r *rand.Rand, long bool, race bool) scanConfig {
 		cfg.PrecertOnly = false
 		cfg.Matcher = "all"
 		nreq := (cfg.TreeSize - int(cfg.Start) + int(cfg.Batch) - 1) / int(cfg.Batch)
-		cfg.Plan.FixedUs = 3300 * 1000 * cfg.Fetchers / nreq
+		cfg.Plan.FixedUs = targetMs * 1000 * cfg.Fetchers / nreq
 		cfg.Plan.Weights = [nBehaviours]int{55, 25, 8, 6, 4, 2}
 		cfg.Plan.MaxFaults = 2
 		cfg.Procs = []int{2, 4, 16}[r.IntN(3)]
@@ -705,16 +763,37 @@ func runC17(c *core.Ctx) {
 	}
 	nShort := c.Pick(24, 150)
 	nLong := c.Pick(1, 3)
+	nMedium := c.Pick(1, 3) // >= 1.2 s: at least one tick of the progress goroutine, non-drained updater modes
 	if race {
 		nShort = c.Pick(8, 50)
-		nLong = c.Pick(1, 3)
 	}
 	st := &c17stats{interleavings: map[uint64]bool{}, reqOrders: map[uint64]bool{}, deliveryOrder: map[uint64]bool{}}
 	r := c.Rng
 	total := nShort + nLong
-	for i := 0; i < total; i++ {
-		long := i%(total/nLong) == (total/nLong)/2 && i/(total/nLong) < nLong
-		cfg := pickCfg(r, long, race)
+	nthLong := 0
+	for i := 0; i < total+nMedium; i++ {
+		long := i < total && i%(total/nLong) == (total/nLong)/2 && i/(total/nLong) < nLong
+		target := 0
+		if long {
+			target = 3300
+		} else if i >= total {
+			target = 1700
+		}
+		cfg := pickCfg(r, target, race)
+		switch {
+		case long: // every updater mode appears in the long family (modes rotate over shards and legs)
+			legOff := 0
+			if race {
+				legOff = 2
+			}
+			cfg.Updater = updaterModes[(c.Shard+legOff+nthLong)%len(updaterModes)]
+			nthLong++
+		case target > 0:
+			cfg.Updater = updaterModes[1+(c.Shard+i)%(len(updaterModes)-1)]
+		default:
+			cfg.Updater = "drained"
+		}
+		long = target > 0
 		id := fmt.Sprintf("scan-%s-%d", c.Leg, i)
 		if strings.HasPrefix(c.OnlyCase, "scan-") && !strings.HasPrefix(c.OnlyCase, id+"-") {
 			continue // replay of one scan; a race report names no scan, then the whole shard is repeated
@@ -737,7 +816,7 @@ func runC17(c *core.Ctx) {
 			c.Count("scans", 1)
 			if res.hung {
 				if strings.Contains(res.dump, "zcrypto/ct/scanner.(*Scanner)") {
-					c.Violation("termination:scan-did-not-return", "Scan has not returned and the log has seen no request for 600 s; goroutines parked in ct/scanner frames:\n"+res.dump, cid, cfg)
+					c.Violation("termination:scan-did-not-return", res.hungWhy+"; goroutine dump:\n"+scannerGoroutines(res.dump), cid, cfg)
 				} else {
 					c.Note("scan %s: watchdog fired without scanner frames in the dump (inconclusive)", cid)
 					c.Count("watchdog_without_scanner_frames", 1)
@@ -767,11 +846,22 @@ func runC17(c *core.Ctx) {
 				c.Count("scans_with_empty_range", 1)
 			}
 			if long {
-				c.Count("long_scans", 1)
-				if len(res.updates) >= 2 {
-					c.Count("long_scans_with_2+_progress_ticks", 1)
+				c.Count("updater_mode:"+cfg.Updater, 1)
+				if cfg.Long {
+					c.Count("long_scans", 1)
+					if cfg.Updater == "drained" {
+						c.Count("long_scans_drained", 1)
+						if len(res.updates) >= 2 {
+							c.Count("long_scans_drained_with_2+_progress_ticks", 1)
+						}
+					}
+					c.Max("long_scan_ms", int(res.elapsed/time.Millisecond))
+				} else {
+					c.Count("medium_scans", 1)
 				}
-				c.Max("long_scan_ms", int(res.elapsed/time.Millisecond))
+				if res.elapsed >= 1200*time.Millisecond && cfg.Updater != "drained" {
+					c.Count("scans_over_1.2s_with_undrained_updater", 1)
+				}
 			} else {
 				c.Max("short_scan_ms", int(res.elapsed/time.Millisecond))
 				if res.elapsed > 20*time.Second {
@@ -864,4 +954,20 @@ func selfCheckTemplates(c *core.Ctx) bool {
 		return false
 	}
 	return true
+}
+
+// scannerGoroutines keeps the goroutines of a dump that have a ct/scanner or ct/client frame (plus a count of the rest).
+func scannerGoroutines(dump string) string {
+	var sb strings.Builder
+	other := 0
+	for _, g := range strings.Split(dump, "\n\n") {
+		if strings.Contains(g, "zcrypto/ct/scanner") || strings.Contains(g, "zcrypto/ct/client") {
+			sb.WriteString(g)
+			sb.WriteString("\n\n")
+		} else {
+			other++
+		}
+	}
+	fmt.Fprintf(&sb, "(%d other goroutines omitted)", other)
+	return sb.String()
 }
